@@ -98,7 +98,13 @@ fn gen_cfg(rng: &mut Rng) -> Cfg {
 fn gen_gap(rng: &mut Rng, c: &Cfg) -> u128 {
     let i = c.interval_ns as u128;
     let l = c.limit as u128;
-    match rng.weighted(&[30, 4, 6, 8, 10, 8, 6, 6, 5, 6, 5, 6]) {
+    match rng.weighted(&[30, 4, 6, 8, 10, 8, 6, 6, 5, 6, 5, 6, 2]) {
+        // a very long idle period: a multiple of 2^32 intervals (plus a little), where a token count computed in
+        // 32 bits would wrap; kept below 2^61 ns so that the whole history stays far from the end of the clock
+        12 => {
+            let g = i * ((1u128 << 32) * (1 + rng.below(2) as u128) + *rng.pick(&[0u128, 1, 2]) * l);
+            if g < (1u128 << 61) { g } else { l * i }
+        }
         0 => 0,
         1 => 1,
         2 => i / 3,
@@ -189,7 +195,8 @@ fn run_case(check: &Check, rng: &mut Rng, max_events: u64) {
     let mut twin_diff: Option<usize> = None;
     let hot = rng.usize(nid);
     for _ in 0..n {
-        t += gen_gap(rng, &c);
+        let g = gen_gap(rng, &c);
+        t += if t + g < (1u128 << 62) { g } else { 1 };
         let now = base + Duration::from_nanos(t as u64);
         let mut ident = if rng.chance(1, 2) { hot } else { rng.usize(nid) };
         let (peer, addr): (usize, Multiaddr) = if c.per_ip {
@@ -311,7 +318,7 @@ pub fn run(args: &Args) -> i32 {
         "exploration",
         "PRNG histories: limiter kind (per-peer/per-ip x reservation/circuit builder), limit in {1,2,3,5,8,30}, \
          interval 1us..1h (1/8 of cases: not a whole number of us), 1-4 identities with one hot identity, 12..N \
-         requests with gaps drawn from {0,1ns,I/3,I-1,I,I+1,2I,kI,LI-1,LI,LI+1,uniform}; non-trivial = some identity \
+         requests with gaps drawn from {0,1ns,I/3,I-1,I,I+1,2I,kI,LI-1,LI,LI+1,uniform, k*2^32*I (+0,L,2L intervals)}; non-trivial = some identity \
          was refused and later accepted again (a refill was observed); distinct by (config, identity/time/outcome sequence)",
     );
     let tiny = util::tiny(args);
